@@ -559,6 +559,9 @@ func mkNodeHeightBound(c *core.Ctx, ctor, mk *ssa.Function) {
 					d, isD := plusConst(v, sym)
 					switch {
 					case isD && d == 1 && guardedByLevels(p, sym, isLevels):
+					case isD && d == 1 && guardedByLevels(phiLockstepPath(an, h, phi, p), sym, isLevels):
+						// the bound is tested on another counter that runs in lock-step with this one (the index of
+						// a range over table[:levels])
 					default:
 						inductive = false
 					}
@@ -684,7 +687,11 @@ func skipRoles(list *types.Named, ctor *ssa.Function) *skipRoleSet {
 	tps := node.Origin().TypeParams()
 	for i := 0; i < nst.NumFields(); i++ {
 		f := nst.Field(i)
-		switch t := f.Type().(type) {
+		nft := f.Type()
+		if _, isNamedSlice := nft.Underlying().(*types.Slice); isNamedSlice {
+			nft = nft.Underlying()
+		}
+		switch t := nft.(type) {
 		case *types.Slice:
 			r.fingers = f.Name()
 		case *types.TypeParam:
@@ -701,4 +708,83 @@ func skipRoles(list *types.Named, ctor *ssa.Function) *skipRoleSet {
 		return nil
 	}
 	return r
+}
+
+// phiLockstepPath: a copy of path p (branches only) in which every other integer counter of loop head h that runs in
+// lock-step with phi - constant start on every way in, the same constant step on every way round - is expressed
+// through phi (other = phi + (start_other - start_phi)).
+func phiLockstepPath(an *ir.Analysis, h *ssa.BasicBlock, phi *ssa.Phi, p *ir.Path) *ir.Path {
+	lb := ir.LoopBlocks(h)
+	behaviour := func(x *ssa.Phi) (start, step int64, ok bool) {
+		sym := an.Start[h].Reg(x)
+		nIn, nBack := 0, 0
+		for _, ps := range an.Segs {
+			for _, q := range ps {
+				if q.To != h {
+					continue
+				}
+				v := q.PhiOut[x]
+				if v == nil {
+					return 0, 0, false
+				}
+				if q.From == nil || !lb[q.From] {
+					k, isK := v.IntConst()
+					if !isK || (nIn > 0 && k != start) {
+						return 0, 0, false
+					}
+					start = k
+					nIn++
+				} else {
+					d, isD := plusConst(v, sym)
+					if !isD || (nBack > 0 && d != step) {
+						return 0, 0, false
+					}
+					step = d
+					nBack++
+				}
+			}
+		}
+		return start, step, nIn > 0 && nBack > 0
+	}
+	s0, d0, ok0 := behaviour(phi)
+	if !ok0 {
+		return p
+	}
+	sym := an.Start[h].Reg(phi)
+	type rel struct {
+		sym *ir.Term
+		off int64
+	}
+	var rels []rel
+	for _, in := range h.Instrs {
+		x, isPhi := in.(*ssa.Phi)
+		if !isPhi {
+			break
+		}
+		if x == phi {
+			continue
+		}
+		if b, isB := x.Type().Underlying().(*types.Basic); !isB || b.Info()&types.IsInteger == 0 {
+			continue
+		}
+		if s1, d1, ok1 := behaviour(x); ok1 && d1 == d0 {
+			rels = append(rels, rel{an.Start[h].Reg(x), s1 - s0})
+		}
+	}
+	if len(rels) == 0 {
+		return p
+	}
+	out := &ir.Path{From: p.From, To: p.To, Exit: p.Exit}
+	for i := range p.Steps {
+		st := p.Steps[i]
+		if st.Kind == ir.KBranch {
+			at := st.Atom
+			for _, r := range rels {
+				at = substTerm(at, r.sym, ir.MkBin("+", ir.Const(fmt.Sprint(r.off)), sym))
+			}
+			st.Atom = ir.Rebuild(at)
+			out.Steps = append(out.Steps, st)
+		}
+	}
+	return out
 }
